@@ -410,3 +410,551 @@ Proof.
     destruct (rs t) as [[s|l|es]|] eqn:E; try discriminate. injection Hm as <-.
     exists [es]. split; [constructor; [exact E | constructor] | cbn; rewrite app_nil_r; reflexivity].
 Qed.
+
+(* ================================================================== *)
+(* 4. one map with a merge key, children given by induction            *)
+(* ================================================================== *)
+Lemma filter_rev' {A : Type} (f : A -> bool) (l : list A) : filter f (rev l) = rev (filter f l).
+Proof.
+  induction l as [|a l IH]; [reflexivity|].
+  cbn [rev filter]. rewrite filter_app, IH. cbn [filter].
+  destruct (f a); cbn [rev]; [reflexivity | apply app_nil_r].
+Qed.
+
+Lemma filter_length_map_snd {A B : Type} (p : B -> bool) (L : list (A * B)) :
+  length (filter (fun jt => p (snd jt)) L) = length (filter p (map snd L)).
+Proof. induction L as [|[a b] r IH]; [reflexivity|]. cbn [filter map snd]. destruct (p b); cbn [length]; rewrite IH; reflexivity. Qed.
+
+Lemma filter_length_rev {A : Type} (p : A -> bool) l : length (filter p (rev l)) = length (filter p l).
+Proof. rewrite filter_rev', rev_length. reflexivity. Qed.
+
+Lemma orel_some_r {A B : Type} (R : A -> B -> Prop) o y : orel R o (Some y) -> exists x, o = Some x /\ R x y.
+Proof. intros H. inversion H; subst. eexists; split; [reflexivity | assumption]. Qed.
+
+Lemma orel_some_l {A B : Type} (R : A -> B -> Prop) x o : orel R (Some x) o -> exists y, o = Some y /\ R x y.
+Proof. intros H. inversion H; subst. eexists; split; [reflexivity | assumption]. Qed.
+
+Lemma Forall2_impl_in {A B : Type} (R Q : A -> B -> Prop) l r :
+  Forall2 R l r -> (forall a b, In a l -> R a b -> Q a b) -> Forall2 Q l r.
+Proof.
+  induction 1 as [|a b l r Hab HF IHF]; intros H; constructor.
+  - apply H; [left; reflexivity | exact Hab].
+  - apply IHF. intros a' b' Hin HR. apply H; [right; exact Hin | exact HR].
+Qed.
+
+Section MapLevel.
+  Variable rec : node -> res node.
+  Variable rs : node -> option value.
+  Variable dm : node -> bool.
+  Hypothesis IH : forall t t' v, dm t = true -> rec t = ROk t' -> rs t = Some v -> veq (value_of t') v.
+  Hypothesis Hclean : forall t t', rec t = ROk t' -> clean t' = true.
+  Hypothesis Hid : forall t t', clean t = true -> rec t = ROk t' -> t' = t.
+  Hypothesis Hnd : forall t a tes, dm t = true -> rec t = ROk (Mp a tes) -> NoDup (keys tes).
+
+  Lemma recv_clean v : clean v = true -> recv rec v = v.
+  Proof. intros Hc. unfold recv. destruct (rec v) as [v'| | |] eqn:E; try reflexivity. eapply Hid; eassumption. Qed.
+
+  (* what is known about one merged target after a successful run *)
+  Definition target_ok (k : str) (t : node) (ves : list (str * value)) : Prop :=
+    exists a tes, rec t = ROk (Mp a tes) /\ src_entries rec t = tes /\ NoDup (keys tes)
+                  /\ entries_clean tes = true
+                  /\ orel veq (vlookup k (map entry_value tes)) (vlookup k ves).
+
+  Lemma target_facts k t ves :
+    dm t = true -> rs t = Some (VM ves) -> (exists a tes, rec t = ROk (Mp a tes)) -> target_ok k t ves.
+  Proof.
+    intros Hd Hr (a & tes & Ht). exists a, tes. split; [exact Ht|].
+    split; [unfold src_entries; rewrite (recv_ok _ _ _ Ht); reflexivity|].
+    split; [eapply Hnd; eassumption|].
+    pose proof (Hclean _ _ Ht) as Hc. rewrite clean_map in Hc. apply andb_true_iff in Hc as [_ Hc].
+    split; [exact Hc|].
+    pose proof (IH _ _ _ Hd Ht Hr) as Hv. rewrite value_of_map in Hv. inversion Hv as [| |? ? Hall]; subst. apply Hall.
+  Qed.
+
+  Lemma entries_clean_lookup k tes v : entries_clean tes = true -> lookup_entry k tes = Some v ->
+    clean v = true /\ is_merge k = false.
+  Proof.
+    induction tes as [|[k' v'] r IHt]; cbn [lookup_entry]; intros Hc H; [discriminate|].
+    unfold entries_clean in Hc. cbn [forallb] in Hc. apply andb_true_iff in Hc as [Hkv Hc].
+    destruct (str_eqb k k') eqn:E.
+    - injection H as <-. apply str_eqb_eq in E. subst k'. unfold entry_clean in Hkv. cbn [fst snd] in Hkv.
+      apply andb_true_iff in Hkv as [H1 H2]. apply negb_true_iff in H1. split; assumption.
+    - apply IHt; assumption.
+  Qed.
+
+  Theorem map_merge_level a es es' v :
+    map_ok dm rs es = true -> has_merge es = true ->
+    recon rec (flat_texts es) es 0 [] = ROk es' ->
+    resolve_step rs (Mp a es) = Some v ->
+    veq (VM (map entry_value es')) v.
+  Proof.
+    intros Hok Hhm Hrecon Hres.
+    unfold map_ok in Hok. apply andb_true_iff in Hok as [Hok Hbm]. apply andb_true_iff in Hok as [Hnodup Hdm].
+    apply nodupb_NoDup in Hnodup.
+    destruct (before_merge es) as [[pre mv]|] eqn:Ebm;
+      [|apply before_merge_none in Ebm; congruence].
+    destruct (before_merge_split _ _ _ Ebm) as (mk & post & Hes & Hmk & Hpre).
+    apply is_merge_eq in Hmk. subst mk.
+    destruct (merge_targets mv) as [ts|] eqn:Ets; [|discriminate].
+    apply andb_true_iff in Hbm as [Hbm Hrk]. apply andb_true_iff in Hbm as [Hmp Hdts].
+    destruct (all_some (map (resolved_keys rs) ts)) as [rks|] eqn:Erks; [|discriminate].
+    apply andb_true_iff in Hrk as [Hpd Hprek].
+    (* keys *)
+    assert (Hkeys : keys es = keys pre ++ merge_key :: keys post).
+    { rewrite Hes. unfold keys. rewrite map_app. reflexivity. }
+    rewrite Hkeys in Hnodup.
+    assert (Hpost : forall kv, In kv post -> is_merge (fst kv) = false).
+    { intros [k0 v0] Hin. cbn [fst]. destruct (is_merge k0) eqn:E; [|reflexivity]. exfalso.
+      apply is_merge_eq in E. subst k0. apply NoDup_app_r in Hnodup. inversion Hnodup as [|? ? Hn _]; subst.
+      apply Hn. apply in_map_iff. exists (merge_key, v0). split; [reflexivity | exact Hin]. }
+    assert (Hnd_post : NoDup (keys post)).
+    { apply NoDup_app_r in Hnodup. inversion Hnodup; assumption. }
+    (* the spec *)
+    cbn [resolve_step] in Hres. rewrite Hes in Hres. rewrite !filter_app in Hres. cbn [filter fst] in Hres.
+    assert (Hmkt : is_merge merge_key = true) by reflexivity. rewrite Hmkt in Hres. cbn [negb] in Hres.
+    assert (Ffn : forall X : entries, (forall kv, In kv X -> is_merge (fst kv) = false) ->
+              filter (fun kv => negb (is_merge (fst kv))) X = X /\ filter (fun kv => is_merge (fst kv)) X = []).
+    { intros X HX. induction X as [|kv X' IHX]; [split; reflexivity|]. cbn [filter].
+      rewrite (HX kv (or_introl eq_refl)). cbn [negb].
+      destruct (IHX (fun kv' Hkv' => HX kv' (or_intror Hkv'))) as [-> ->]. split; reflexivity. }
+    destruct (Ffn pre Hpre) as [Fp1 Fp2]. destruct (Ffn post Hpost) as [Fq1 Fq2].
+    rewrite Fp1, Fp2, Fq1, Fq2 in Hres. cbn [app map all_some snd] in Hres.
+    destruct (all_some (map _ (pre ++ post))) as [ex|] eqn:Eex; [|discriminate].
+    destruct (merge_sources rs mv) as [ms|] eqn:Ems; [|discriminate].
+    injection Hres as <-. cbn [concat]. rewrite app_nil_r.
+    destruct (spec_merge_sources rs mv ts ms Ets Ems) as (vss & Hvss & ->).
+    (* the run *)
+    rewrite Hes in Hrecon at 2. rewrite recon_app in Hrecon. apply rbind_ok in Hrecon as (acc1 & Hp1 & Hrecon).
+    cbn [recon] in Hrecon. rewrite Hmkt in Hrecon. apply rbind_ok in Hrecon as (acc2 & Hp2 & Hp3).
+    rewrite Nat.add_0_l in Hp2, Hp3.
+    assert (F1 : forall k, lookup_entry k acc1 = match lookup_entry k pre with Some x => Some (recv rec x) | None => None end).
+    { intros k. eapply (recon_explicit_seg rec es pre [] ((merge_key, mv) :: post) 0 [] acc1);
+        [rewrite Hes; reflexivity | reflexivity | exact Hpre | | exact Hp1].
+      unfold keys in *. rewrite map_app. exact Hnodup. }
+    assert (F3 : forall k, lookup_entry k es' = match lookup_entry k post with Some x => Some (recv rec x) | None => lookup_entry k acc2 end).
+    { intros k. eapply (recon_explicit_seg rec es post (pre ++ [(merge_key, mv)]) [] (S (length pre)) acc2 es');
+        [rewrite Hes, <- app_assoc, app_nil_r; reflexivity | rewrite app_length; cbn; lia | exact Hpost | rewrite app_nil_r; exact Hnd_post | exact Hp3]. }
+    assert (Ok1 : forall kv, In kv pre -> exists v', rec (snd kv) = ROk v') by (eapply recon_explicit_ok; eassumption).
+    assert (Ok3 : forall kv, In kv post -> exists v', rec (snd kv) = ROk v') by (eapply recon_explicit_ok; eassumption).
+    (* the processing list of the merge phase *)
+    assert (HL : exists L : list (nat * node),
+              (map snd L = ts \/ map snd L = rev ts) /\
+              (forall acc acc', (match mv with
+                                | Sq _ items => apply_seq_rev rec (flat_texts es) (rev (indexed 0 items)) acc
+                                | _ => apply_alias rec (flat_texts es) mv (2 * length pre) acc
+                                end) = ROk acc' ->
+                 apply_seq_rev rec (flat_texts es) (map (fun jt => (fst jt, Al (snd jt))) L) acc = ROk acc')).
+    { destruct mv as [a0 s|a0 items|a0 es0|t]; cbn [merge_targets] in Ets; try discriminate.
+      - apply alias_targets_items in Ets. subst items. exists (rev (indexed 0 ts)). split.
+        + right. rewrite map_rev, indexed_snd. reflexivity.
+        + intros acc acc' H. rewrite indexed_map, <- map_rev in H. exact H.
+      - injection Ets as <-. exists [(2 * length pre, t)]. split; [left; reflexivity|].
+        intros acc acc' H. cbn [map apply_seq_rev fst snd]. rewrite H. reflexivity. }
+    destruct HL as (L & HLts & HLrun). specialize (HLrun _ _ Hp2).
+    assert (HinL : forall t, In t (map snd L) <-> In t ts).
+    { intros t. destruct HLts as [->| ->]; [reflexivity | symmetry; apply in_rev]. }
+    (* every target: facts *)
+    assert (Hvss_in : forall t, In t ts -> exists ves, In ves vss /\ rs t = Some (VM ves)).
+    { clear - Hvss. induction Hvss as [|t0 ves0 l r H0 HF IHF]; intros t Hin; [destruct Hin|].
+      destruct Hin as [<-|Hin]; [exists ves0; split; [left; reflexivity | exact H0]|].
+      destruct (IHF t Hin) as (ves & Hv & Hr). exists ves. split; [right; exact Hv | exact Hr]. }
+    assert (Htgt : forall k t, In t ts -> exists ves, In ves vss /\ rs t = Some (VM ves) /\ target_ok k t ves).
+    { intros k t Hin. destruct (Hvss_in t Hin) as (ves & Hv & Hr). exists ves. split; [exact Hv|]. split; [exact Hr|].
+      apply target_facts; [rewrite forallb_forall in Hdts; apply Hdts, Hin | exact Hr|].
+      apply HinL in Hin. apply in_map_iff in Hin as (jt & <- & Hjt). eapply apply_seq_rev_ok; eassumption. }
+    constructor. intros k.
+    rewrite vlookup_valued, vlookup_app.
+    destruct (spec_explicit_lookup rs k (pre ++ post) ex Eex) as [Hex Hexok]. rewrite Hex.
+    rewrite lookup_entry_app in Hex, Hexok |- *. rewrite (F3 k).
+    (* case: k written after the merge key *)
+    destruct (lookup_entry k post) as [vq|] eqn:Eq.
+    { assert (lookup_entry k pre = None) as Hpn.
+      { apply lookup_entry_none. intro Hin. eapply NoDup_app_disj; [exact Hnodup | exact Hin|].
+        right. eapply lookup_entry_in, Eq. }
+      rewrite Hpn in *. destruct (Hexok vq eq_refl) as (x & Hx). rewrite Hx. cbn [option_map]. constructor.
+      assert (Hinq : In (k, vq) post).
+      { clear - Eq. induction post as [|[k' v'] r IHr]; cbn [lookup_entry] in Eq; [discriminate|].
+        destruct (str_eqb k k') eqn:E; [injection Eq as <-; apply str_eqb_eq in E; subst; left; reflexivity | right; apply IHr, Eq]. }
+      destruct (Ok3 _ Hinq) as (v' & Hv'). cbn [snd] in Hv'. rewrite (recv_ok _ _ _ Hv').
+      eapply IH; [| exact Hv' | exact Hx].
+      rewrite forallb_forall in Hdm.
+      assert (Hinq_es : In (k, vq) es) by (rewrite Hes; apply in_or_app; right; right; exact Hinq).
+      pose proof (Hdm _ Hinq_es) as Hd. cbn [fst snd] in Hd. pose proof (Hpost _ Hinq) as Hf. cbn [fst] in Hf.
+      rewrite Hf in Hd. exact Hd. }
+    (* k is not written after the merge key: what the merge phase left *)
+    set (provE := fun t => existsb (str_eqb k) (keys (src_entries rec t))).
+    assert (HprovS : forall t ves, In t ts -> rs t = Some (VM ves) -> provE t = true -> mem k (map fst ves) = true).
+    { intros t ves Hin Hr Hp. destruct (Htgt k t Hin) as (ves' & _ & Hr' & (a' & tes & _ & Hse & _ & _ & Hor)).
+      rewrite Hr in Hr'. injection Hr' as <-. unfold provE in Hp. rewrite Hse in Hp.
+      apply mem_in. fold (mem k (keys tes)) in Hp. apply mem_in in Hp.
+      apply lookup_entry_some_of_in in Hp as (x & Hx). rewrite vlookup_valued, Hx in Hor. cbn [option_map] in Hor.
+      apply orel_some_l in Hor as (w & Hr2 & _). eapply vlookup_in, Hr2. }
+    assert (Hcount : length (filter (provides rec k) L) <= 1).
+    { transitivity (length (filter provE (map snd L))).
+      { rewrite <- filter_length_map_snd. apply Nat.eq_le_incl. reflexivity. }
+      assert (Hc : length (filter provE ts) <= 1).
+      { transitivity (length (filter (mem k) rks)); [|apply pairwise_disjoint_count, Hpd].
+        apply all_some_Forall2 in Erks.
+        apply (filter_count_le provE (mem k) (fun t rk => resolved_keys rs t = Some rk /\ In t ts)).
+        - eapply Forall2_impl_in; [exact Erks|]. intros t rk Hin Hrk. split; assumption.
+        - intros t rk [Hrk Hin] Hp. unfold resolved_keys in Hrk.
+          destruct (rs t) as [[s|l|ves]|] eqn:Er; try discriminate. injection Hrk as <-.
+          eapply HprovS; eassumption. }
+      destruct HLts as [->| ->]; [exact Hc | rewrite filter_length_rev; exact Hc]. }
+    assert (Hnoprov_pre : forall x, lookup_entry k pre = Some x -> forall t, In t ts -> provE t = false).
+    { intros x Hx t Hin. destruct (provE t) eqn:Ep; [|reflexivity]. exfalso.
+      destruct (Hvss_in t Hin) as (ves & _ & Hr). pose proof (HprovS t ves Hin Hr Ep) as Hm.
+      rewrite forallb_forall in Hprek. specialize (Hprek k (lookup_entry_in _ _ _ Hx)).
+      rewrite forallb_forall in Hprek.
+      assert (Hrkin : In (map fst ves) rks).
+      { apply all_some_Forall2 in Erks. clear - Erks Hin Hr. induction Erks as [|t0 rk0 l r H0 HF IHF]; [destruct Hin|].
+        destruct Hin as [<-|Hin]; [left; unfold resolved_keys in H0; rewrite Hr in H0; injection H0 as <-; reflexivity | right; apply IHF, Hin]. }
+      specialize (Hprek _ Hrkin). rewrite Hm in Hprek. discriminate. }
+    assert (F2 : lookup_entry k acc2 =
+                 match lookup_first k (map (fun jt => src_entries rec (snd jt)) L) with
+                 | Some x => Some (recv rec x) | None => lookup_entry k acc1 end).
+    { eapply apply_seq_rev_k_gen; [| exact Hcount | | exact HLrun].
+      - intros jt Hjt. assert (Hin : In (snd jt) ts) by (apply HinL, in_map, Hjt).
+        destruct (Htgt k _ Hin) as (ves & _ & _ & (a' & tes & _ & Hse & Hn & _)). rewrite Hse. exact Hn.
+      - intros (jt & Hjt & Hkj). assert (Hin : In (snd jt) ts) by (apply HinL, in_map, Hjt).
+        assert (Hp : provE (snd jt) = true).
+        { unfold provE. apply existsb_exists. exists k. split; [exact Hkj | apply str_eqb_refl]. }
+        assert (Hpre_none : lookup_entry k pre = None).
+        { destruct (lookup_entry k pre) as [x|] eqn:Ex; [|reflexivity].
+          rewrite (Hnoprov_pre x eq_refl _ Hin) in Hp. discriminate. }
+        split; [rewrite F1, Hpre_none; reflexivity|].
+        intros n. destruct (later_has (flat_texts es) n k) eqn:El; [|reflexivity]. exfalso.
+        apply later_has_sound in El. rewrite Hkeys in El. apply in_app_or in El as [El|[El|El]].
+        + apply lookup_entry_some_of_in in El as (x & Hx). congruence.
+        + subst k. destruct (Htgt merge_key _ Hin) as (ves & _ & _ & (a' & tes & _ & Hse & _ & Hcl & _)).
+          rewrite Hse in Hkj. apply lookup_entry_some_of_in in Hkj as (x & Hx).
+          destruct (entries_clean_lookup _ _ _ Hcl Hx) as [_ Hf]. discriminate.
+        + apply lookup_entry_some_of_in in El as (x & Hx). congruence. }
+    rewrite F2, F1.
+    (* is there a providing target? *)
+    destruct (lookup_first k (map (fun jt => src_entries rec (snd jt)) L)) as [x|] eqn:Elf.
+    - (* yes: it is the only one, on both sides *)
+      assert (Hex_t : exists jt, In jt L /\ lookup_entry k (src_entries rec (snd jt)) = Some x).
+      { clear - Elf. induction L as [|jt r IHL]; cbn [map lookup_first] in Elf; [discriminate|].
+        destruct (lookup_entry k (src_entries rec (snd jt))) as [y|] eqn:Ey.
+        - injection Elf as <-. exists jt. split; [left; reflexivity | exact Ey].
+        - destruct (IHL Elf) as (jt' & Hin & Hl). exists jt'. split; [right; exact Hin | exact Hl]. }
+      destruct Hex_t as (jt & Hjt & Hlx). set (t := snd jt) in *.
+      assert (Hin : In t ts) by (apply HinL, in_map, Hjt).
+      assert (Hpt : provE t = true).
+      { unfold provE. apply existsb_exists. exists k. split; [eapply lookup_entry_in, Hlx | apply str_eqb_refl]. }
+      assert (Hpre_none : lookup_entry k pre = None).
+      { destruct (lookup_entry k pre) as [y|] eqn:Ey; [|reflexivity]. rewrite (Hnoprov_pre y eq_refl _ Hin) in Hpt. discriminate. }
+      rewrite Hpre_none in Hex |- *. cbn [option_map].
+      destruct (Htgt k t Hin) as (ves & Hves & Hr & (a' & tes & _ & Hse & _ & Hcl & Hor)).
+      rewrite Hse in Hlx. destruct (entries_clean_lookup _ _ _ Hcl Hlx) as [Hcx _].
+      rewrite (recv_clean x Hcx).
+      rewrite vlookup_valued, Hlx in Hor. cbn [option_map] in Hor.
+      (* the spec finds the same single provider *)
+      assert (Hc : length (filter provE ts) <= 1).
+      { pose proof Hcount as Hc0. unfold provides in Hc0.
+        change (fun jt : nat * node => existsb (str_eqb k) (keys (src_entries rec (snd jt)))) with (fun jt : nat * node => provE (snd jt)) in Hc0.
+        rewrite filter_length_map_snd in Hc0. destruct HLts as [E|E]; rewrite E in Hc0; [exact Hc0 | rewrite filter_length_rev in Hc0; exact Hc0]. }
+      assert (Hal : Forall2 (fun t' ves' => rs t' = Some (VM ves') /\ (provE t' = false -> vlookup k ves' = None)) ts vss).
+      { eapply Forall2_impl_in; [exact Hvss|]. intros t0 ves0 Hin0 H0.
+        split; [exact H0|]. intros Hp.
+        destruct (Htgt k t0 Hin0) as (ves2 & _ & Hr2 & (a2 & tes2 & _ & Hse2 & _ & _ & Hor2)).
+        rewrite H0 in Hr2. injection Hr2 as <-. unfold provE in Hp. rewrite Hse2 in Hp.
+        destruct (vlookup k ves0) as [y|] eqn:Ey; [|reflexivity]. exfalso.
+        apply orel_some_r in Hor2 as (w & Hl2 & _). rewrite vlookup_valued in Hl2.
+        destruct (lookup_entry k tes2) as [z|] eqn:Ez; [|discriminate].
+        assert (existsb (str_eqb k) (keys tes2) = true); [|congruence].
+        apply existsb_exists. exists k. split; [eapply lookup_entry_in, Ez | apply str_eqb_refl]. }
+      assert (Hspec : vlookup k (concat vss) = vlookup k ves).
+      { clear - Hal Hc Hin Hpt Hr.
+        revert Hc Hin. induction Hal as [|t0 ves0 l r [H0 H0n] HF IHF]; intros Hc Hin; [destruct Hin|].
+        cbn [concat]. rewrite vlookup_app. cbn [filter] in Hc.
+        assert (Hrest : (forall t', In t' l -> provE t' = false) -> vlookup k (concat r) = None).
+        { intros Hall. apply vlookup_concat_all_none. clear - HF Hall.
+          induction HF as [|t1 ves1 l r [H1 H1n] HF IHF]; intros s Hs; [destruct Hs|].
+          destruct Hs as [<-|Hs]; [apply H1n, Hall; left; reflexivity | apply IHF; [intros t' Ht'; apply Hall; right; exact Ht' | exact Hs]]. }
+        destruct (provE t0) eqn:E0.
+        - cbn [length] in Hc. assert (Hnil : filter provE l = []) by (destruct (filter provE l); [reflexivity | cbn in Hc; lia]).
+          destruct Hin as [<-|Hin].
+          + rewrite Hr in H0. injection H0 as <-.
+            rewrite Hrest by (intros t' Ht'; eapply filter_nil_forall; eassumption). destruct (vlookup k ves); reflexivity.
+          + rewrite (filter_nil_forall _ _ Hnil _ Hin) in Hpt. discriminate.
+        - rewrite (H0n eq_refl). destruct Hin as [<-|Hin]; [congruence|]. apply IHF; assumption. }
+      rewrite Hspec. exact Hor.
+    - (* no target provides k *)
+      assert (Hnone : forall t, In t ts -> provE t = false).
+      { intros t Hin. apply HinL in Hin. apply in_map_iff in Hin as (jt & <- & Hjt).
+        destruct (provE (snd jt)) eqn:Ep; [|reflexivity]. exfalso.
+        unfold provE in Ep. apply existsb_exists in Ep as (y & Hy & E). apply str_eqb_eq in E. subst y.
+        apply lookup_entry_some_of_in in Hy as (z & Hz).
+        assert (lookup_entry k (src_entries rec (snd jt)) = None); [|congruence].
+        clear - Elf Hjt. induction L as [|jt0 r IHL]; [destruct Hjt|]. cbn [map lookup_first] in Elf.
+        destruct (lookup_entry k (src_entries rec (snd jt0))) eqn:E0; [discriminate|].
+        destruct Hjt as [<-|Hjt]; [exact E0 | apply IHL; assumption]. }
+      assert (Hspec : vlookup k (concat vss) = None).
+      { apply vlookup_concat_all_none. intros ves Hv.
+        assert (Hback : exists t', In t' ts /\ rs t' = Some (VM ves)).
+        { clear - Hvss Hv. induction Hvss as [|t0 ves0 l r H0 HF IHF]; [destruct Hv|].
+          destruct Hv as [<-|Hv]; [exists t0; split; [left; reflexivity | exact H0]|].
+          destruct (IHF Hv) as (t' & Ht' & Hr'). exists t'. split; [right; exact Ht' | exact Hr']. }
+        destruct Hback as (t' & Ht' & Hr').
+        destruct (Htgt k t' Ht') as (ves2 & _ & Hr2 & (a2 & tes2 & _ & Hse2 & _ & _ & Hor2)).
+        rewrite Hr' in Hr2. injection Hr2 as <-.
+        pose proof (Hnone t' Ht') as Hp. unfold provE in Hp. rewrite Hse2 in Hp.
+        destruct (vlookup k ves) as [y|] eqn:Ey; [|reflexivity]. exfalso.
+        apply orel_some_r in Hor2 as (w & Hl2 & _). rewrite vlookup_valued in Hl2.
+        destruct (lookup_entry k tes2) as [z|] eqn:Ez; [|discriminate].
+        assert (existsb (str_eqb k) (keys tes2) = true); [|congruence].
+        apply existsb_exists. exists k. split; [eapply lookup_entry_in, Ez | apply str_eqb_refl]. }
+      rewrite Hspec.
+      destruct (lookup_entry k pre) as [vp|] eqn:Ep.
+      + destruct (Hexok vp eq_refl) as (x & Hx). rewrite Hx. cbn [option_map]. constructor.
+        assert (Hinp : In (k, vp) pre).
+        { clear - Ep. induction pre as [|[k' v'] r IHr]; cbn [lookup_entry] in Ep; [discriminate|].
+          destruct (str_eqb k k') eqn:E; [injection Ep as <-; apply str_eqb_eq in E; subst; left; reflexivity | right; apply IHr, Ep]. }
+        destruct (Ok1 _ Hinp) as (v' & Hv'). cbn [snd] in Hv'. rewrite (recv_ok _ _ _ Hv').
+        eapply IH; [| exact Hv' | exact Hx].
+        rewrite forallb_forall in Hdm.
+        assert (Hinp_es : In (k, vp) es) by (rewrite Hes; apply in_or_app; left; exact Hinp).
+        pose proof (Hdm _ Hinp_es) as Hd. cbn [fst snd] in Hd. pose proof (Hpre _ Hinp) as Hf. cbn [fst] in Hf.
+        rewrite Hf in Hd. exact Hd.
+      + cbn [option_map]. constructor.
+  Qed.
+End MapLevel.
+
+(* ================================================================== *)
+(* 5. an exploded map has no repeated key                              *)
+(* ================================================================== *)
+Lemma keys_replace_first k v acc : keys (replace_first k v acc) = keys acc.
+Proof.
+  induction acc as [|[k' v'] r IH]; [reflexivity|]. cbn [replace_first].
+  destruct (str_eqb k k'); cbn [keys map fst]; [reflexivity | f_equal; exact IH].
+Qed.
+
+Lemma has_key_in k acc : has_key k acc = false -> ~ In k (keys acc).
+Proof.
+  intros H Hin. apply has_key_lookup in H. apply lookup_entry_some_of_in in Hin as (v & Hv). congruence.
+Qed.
+
+Lemma NoDup_snoc {A : Type} (l : list A) x : NoDup l -> ~ In x l -> NoDup (l ++ [x]).
+Proof.
+  induction l as [|a r IH]; intros Hn Hx; cbn [app]; [constructor; [intros [] | constructor]|].
+  inversion Hn as [|? ? Ha Hr]; subst. constructor.
+  - intro Hin. apply in_app_or in Hin as [Hin|[<-|[]]]; [exact (Ha Hin) | apply Hx; left; reflexivity].
+  - apply IH; [exact Hr | intro Hin; apply Hx; right; exact Hin].
+Qed.
+
+Section NoDupStep.
+  Variable rec : node -> res node.
+
+  Lemma override_entry_nodup texts key v start acc acc' :
+    NoDup (keys acc) -> override_entry rec texts key v start acc = ROk acc' -> NoDup (keys acc').
+  Proof.
+    intros Hn H. unfold override_entry in H. apply rbind_ok in H as (v' & _ & H).
+    destruct (has_key key acc) eqn:Eh.
+    - injection H as <-. rewrite keys_replace_first. exact Hn.
+    - destruct (later_has texts (start + 2) key); injection H as <-; [exact Hn|].
+      unfold keys. rewrite map_app. cbn [map fst]. apply NoDup_snoc; [exact Hn | apply has_key_in, Eh].
+  Qed.
+
+  Lemma override_all_nodup texts tes : forall start acc acc',
+    NoDup (keys acc) -> override_all rec texts tes start acc = ROk acc' -> NoDup (keys acc').
+  Proof.
+    induction tes as [|[k v] r IH]; intros start acc acc' Hn H; cbn [override_all] in H.
+    - injection H as <-. exact Hn.
+    - apply rbind_ok in H as (acc1 & H1 & H). eapply IH; [|exact H]. eapply override_entry_nodup; eassumption.
+  Qed.
+
+  Lemma apply_alias_nodup texts item idx acc acc' :
+    NoDup (keys acc) -> apply_alias rec texts item idx acc = ROk acc' -> NoDup (keys acc').
+  Proof.
+    intros Hn H. destruct item as [a s|a l|a es|t]; cbn [apply_alias] in H; try (injection H as <-; exact Hn).
+    apply rbind_ok in H as (t' & _ & H). destruct t' as [a s|a l|a tes|t']; try discriminate.
+    eapply override_all_nodup; eassumption.
+  Qed.
+
+  Lemma apply_seq_rev_nodup texts ritems : forall acc acc',
+    NoDup (keys acc) -> apply_seq_rev rec texts ritems acc = ROk acc' -> NoDup (keys acc').
+  Proof.
+    induction ritems as [|[j item] r IH]; intros acc acc' Hn H; cbn [apply_seq_rev] in H.
+    - injection H as <-. exact Hn.
+    - apply rbind_ok in H as (acc1 & H1 & H). eapply IH; [|exact H]. eapply apply_alias_nodup; eassumption.
+  Qed.
+
+  Lemma recon_nodup texts es : forall i acc acc',
+    NoDup (keys acc) -> recon rec texts es i acc = ROk acc' -> NoDup (keys acc').
+  Proof.
+    induction es as [|[k v] r IH]; intros i acc acc' Hn H; cbn [recon] in H.
+    - injection H as <-. exact Hn.
+    - apply rbind_ok in H as (acc1 & H1 & H). eapply IH; [|exact H].
+      destruct (is_merge k).
+      + destruct v as [a s|a l|a es'|t]; try (eapply apply_alias_nodup; eassumption).
+        eapply apply_seq_rev_nodup; eassumption.
+      + eapply override_entry_nodup; eassumption.
+  Qed.
+
+  Lemma map_entries_keys es es' : map_entries rec es = ROk es' -> keys es' = keys es.
+  Proof.
+    revert es'. induction es as [|[k v] r IH]; intros es' H; cbn [map_entries] in H.
+    - injection H as <-. reflexivity.
+    - apply rbind_ok in H as (v' & _ & H). apply rbind_ok in H as (r' & Hr & H). injection H as <-.
+      cbn [keys map fst]. f_equal. apply IH, Hr.
+  Qed.
+End NoDupStep.
+
+(* ================================================================== *)
+(* 6. the exploded document is the spec resolution, on the domain      *)
+(* ================================================================== *)
+Lemma has_merge_false_all es : has_merge es = false -> forall kv, In kv es -> is_merge (fst kv) = false.
+Proof.
+  unfold has_merge. intros H kv Hin. destruct (is_merge (fst kv)) eqn:E; [|reflexivity].
+  assert (existsb (fun kv => is_merge (fst kv)) es = true); [|congruence].
+  apply existsb_exists. exists kv. split; assumption.
+Qed.
+
+Section PlainMap.
+  Variable rec : node -> res node.
+  Variable rs : node -> option value.
+  Variable dm : node -> bool.
+  Hypothesis IH : forall t t' v, dm t = true -> rec t = ROk t' -> rs t = Some v -> veq (value_of t') v.
+
+  Lemma map_entries_veq es : forall es' ex,
+    (forall kv, In kv es -> dm (snd kv) = true) ->
+    map_entries rec es = ROk es' ->
+    all_some (map (fun kv => option_map (fun v => (fst kv, v)) (rs (snd kv))) es) = Some ex ->
+    forall k, orel veq (vlookup k (map entry_value es')) (vlookup k ex).
+  Proof.
+    induction es as [|[k0 v0] r IHr]; intros es' ex Hd Hm Hs k; cbn [map_entries map all_some fst snd] in Hm, Hs.
+    - injection Hm as <-. injection Hs as <-. constructor.
+    - apply rbind_ok in Hm as (v' & Hv & Hm). apply rbind_ok in Hm as (r' & Hr & Hm). injection Hm as <-.
+      destruct (rs v0) as [x|] eqn:Ex; cbn [option_map] in Hs; [|discriminate].
+      destruct (all_some _) as [ex'|] eqn:E; [|discriminate]. injection Hs as <-.
+      cbn [map entry_value vlookup fst snd]. destruct (str_eqb k k0).
+      + constructor. eapply IH; [apply (Hd (k0, v0)); left; reflexivity | exact Hv | exact Ex].
+      + eapply IHr; [intros kv Hkv; apply Hd; right; exact Hkv | exact Hr | reflexivity].
+  Qed.
+
+  Lemma map_res_veq l : forall l' lv,
+    forallb dm l = true -> map_res rec l = ROk l' -> all_some (map rs l) = Some lv ->
+    Forall2 veq (map value_of l') lv.
+  Proof.
+    induction l as [|x r IHr]; intros l' lv Hd Hm Hs; cbn [map_res map all_some forallb] in Hd, Hm, Hs.
+    - injection Hm as <-. injection Hs as <-. constructor.
+    - apply andb_true_iff in Hd as [Hdx Hdr].
+      apply rbind_ok in Hm as (x' & Hx & Hm). apply rbind_ok in Hm as (r' & Hr & Hm). injection Hm as <-.
+      destruct (rs x) as [vx|] eqn:Ex; [|discriminate].
+      destruct (all_some (map rs r)) as [lv'|] eqn:E; [|discriminate]. injection Hs as <-.
+      cbn [map]. constructor; [eapply IH; eassumption | eapply IHr; [exact Hdr | exact Hr | reflexivity]].
+  Qed.
+End PlainMap.
+
+Theorem explode_resolves fuel : forall d, merge_simple_doc fuel d = true ->
+  (forall d' v, explode fuel d = ROk d' -> resolve fuel d = Some v -> veq (value_of d') v)
+  /\ (forall a tes, explode fuel d = ROk (Mp a tes) -> NoDup (keys tes)).
+Proof.
+  induction fuel as [|f IHf]; intros d Hd; [discriminate|].
+  assert (IH1 : forall t t' v, merge_simple_doc f t = true -> explode f t = ROk t' -> resolve f t = Some v -> veq (value_of t') v)
+    by (intros t t' v Ht; apply (IHf t Ht)).
+  assert (IH2 : forall t a tes, merge_simple_doc f t = true -> explode f t = ROk (Mp a tes) -> NoDup (keys tes))
+    by (intros t a tes Ht; apply (IHf t Ht)).
+  cbn [merge_simple_doc explode resolve] in *.
+  destruct d as [a s|a l|a es|t]; cbn [dom_step explode_step resolve_step] in *.
+  - split; [|discriminate]. intros d' v H1 H2. injection H1 as <-. injection H2 as <-. constructor.
+  - split; [|intros a0 tes H; apply rbind_ok in H as (l' & _ & H); discriminate].
+    intros d' v H1 H2. apply rbind_ok in H1 as (l' & Hl & H1). injection H1 as <-.
+    destruct (all_some (map (resolve f) l)) as [lv|] eqn:E; cbn [option_map] in H2; [|discriminate]. injection H2 as <-.
+    cbn [value_of]. constructor. eapply map_res_veq; eassumption.
+  - destruct (has_merge es) eqn:Hm.
+    + split.
+      * intros d' v H1 H2. apply rbind_ok in H1 as (es' & He & H1). injection H1 as <-.
+        rewrite value_of_map.
+        exact (map_merge_level (explode f) (resolve f) (merge_simple_doc f) IH1 (explode_clean f) (explode_clean_id f) IH2
+                 a es es' v Hd Hm He H2).
+      * intros a0 tes H. apply rbind_ok in H as (es' & He & H). injection H as _ <-.
+        eapply recon_nodup; [|exact He]. constructor.
+    + pose proof Hd as Hok. unfold map_ok in Hok. apply andb_true_iff in Hok as [Hok _]. apply andb_true_iff in Hok as [Hnodup Hdm].
+      split.
+      * intros d' v H1 H2. apply rbind_ok in H1 as (es' & He & H1). injection H1 as <-.
+        pose proof (has_merge_false_all _ Hm) as Hall.
+        assert (F1 : filter (fun kv => negb (is_merge (fst kv))) es = es).
+        { clear - Hall. induction es as [|kv r IHr]; [reflexivity|]. cbn [filter]. rewrite (Hall kv (or_introl eq_refl)). cbn [negb].
+          f_equal. apply IHr. intros kv' H. apply Hall. right. exact H. }
+        assert (F2 : filter (fun kv => is_merge (fst kv)) es = []).
+        { clear - Hall. induction es as [|kv r IHr]; [reflexivity|]. cbn [filter]. rewrite (Hall kv (or_introl eq_refl)).
+          apply IHr. intros kv' H. apply Hall. right. exact H. }
+        rewrite F1, F2 in H2. cbn [map all_some concat] in H2.
+        destruct (all_some _) as [ex|] eqn:E; [|discriminate]. injection H2 as <-. rewrite app_nil_r.
+        rewrite value_of_map. constructor.
+        eapply (map_entries_veq (explode f) (resolve f) (merge_simple_doc f) IH1); [| exact He | exact E].
+        intros kv Hkv. rewrite forallb_forall in Hdm. specialize (Hdm kv Hkv). rewrite (Hall kv Hkv) in Hdm. exact Hdm.
+      * intros a0 tes H. apply rbind_ok in H as (es' & He & H). injection H as _ <-.
+        rewrite (map_entries_keys _ _ _ He). apply nodupb_NoDup, Hnodup.
+  - split; [intros d' v H1 H2; exact (IH1 t d' v Hd H1 H2) | intros a0 tes H; exact (IH2 t a0 tes Hd H)].
+Qed.
+
+(* the JSON conversion (explode, then encode) of a document of the domain is its spec resolution *)
+Theorem explode_is_resolve fuel d d' v :
+  merge_simple_doc fuel d = true -> explode fuel d = ROk d' -> resolve fuel d = Some v -> veq (value_of d') v.
+Proof. intros Hd. apply (explode_resolves fuel d Hd). Qed.
+
+(* ================================================================== *)
+(* 7. route 1: traversal of the un-exploded document finds the node    *)
+(*    whose resolution is the spec's value                             *)
+(* ================================================================== *)
+Lemma resolve_no_merge_key f : forall t vs, resolve f t = Some (VM vs) -> forall k, In k (map fst vs) -> is_merge k = false.
+Proof.
+  induction f as [|f IH]; intros t vs H k Hk; [discriminate|]. cbn [resolve] in H.
+  destruct t as [a s|a l|a es|t]; cbn [resolve_step] in H.
+  - discriminate.
+  - destruct (all_some (map (resolve f) l)); discriminate.
+  - destruct (all_some (map _ (filter (fun kv => negb (is_merge (fst kv))) es))) as [ex|] eqn:Eex; [|discriminate].
+    destruct (all_some (map _ (filter (fun kv => is_merge (fst kv)) es))) as [ms|] eqn:Ems; [|discriminate].
+    injection H as <-. rewrite map_app in Hk. apply in_app_or in Hk as [Hk|Hk].
+    + apply all_some_Forall2 in Eex.
+      assert (Hkeys : forall kv b, In kv (filter (fun kv => negb (is_merge (fst kv))) es) ->
+                option_map (fun v => (fst kv, v)) (resolve f (snd kv)) = Some b -> is_merge (fst b) = false).
+      { intros kv b Hin Hb. apply filter_In in Hin as [_ Hn]. apply negb_true_iff in Hn.
+        destruct (resolve f (snd kv)); [|discriminate]. injection Hb as <-. exact Hn. }
+      clear - Eex Hk Hkeys. induction Eex as [|kv b l r H0 HF IHF]; [destruct Hk|].
+      cbn [map] in Hk. destruct Hk as [<-|Hk].
+      * eapply Hkeys; [left; reflexivity | exact H0].
+      * apply IHF; [exact Hk | intros kv' b' Hin; apply Hkeys; right; exact Hin].
+    + apply in_map_iff in Hk as ([k' x] & <- & Hin). cbn [fst]. apply in_concat in Hin as (s & Hs & Hin).
+      apply all_some_Forall2 in Ems.
+      assert (Hsrc : forall item es0, source_entries (resolve f) item = Some es0 -> forall k0, In k0 (map fst es0) -> is_merge k0 = false).
+      { intros item es0 H0 k0 Hk0. destruct item as [a0 s0|a0 l0|a0 es1|t0]; cbn [source_entries] in H0; try discriminate.
+        destruct (resolve f t0) as [[s1|l1|es2]|] eqn:E; try discriminate. injection H0 as <-. eapply IH; eassumption. }
+      assert (Hms : forall kv b, merge_sources (resolve f) (snd kv) = Some b -> forall k0, In k0 (map fst b) -> is_merge k0 = false).
+      { intros kv b Hb k0 Hk0. destruct (snd kv) as [a0 s0|a0 items|a0 es1|t0]; cbn [merge_sources] in Hb;
+          try (eapply Hsrc; eassumption).
+        destruct (all_some (map (source_entries (resolve f)) items)) as [bs|] eqn:Eb; cbn [option_map] in Hb; [|discriminate].
+        injection Hb as <-. apply all_some_Forall2 in Eb.
+        apply in_map_iff in Hk0 as ([k1 x1] & <- & Hin1). cbn [fst]. apply in_concat in Hin1 as (s1 & Hs1 & Hin1).
+        clear - Eb Hs1 Hin1 Hsrc. induction Eb as [|it b0 l r H0 HF IHF]; [destruct Hs1|].
+        destruct Hs1 as [<-|Hs1]; [eapply Hsrc; [exact H0 | apply in_map_iff; exists (k1, x1); split; [reflexivity | exact Hin1]] | apply IHF, Hs1]. }
+      clear - Ems Hs Hin Hms. induction Ems as [|kv b l r H0 HF IHF]; [destruct Hs|].
+      destruct Hs as [<-|Hs]; [eapply Hms; [exact H0 | apply in_map_iff; exists (k', x); split; [reflexivity | exact Hin]] | apply IHF, Hs].
+  - eapply IH; eassumption.
+Qed.
+
+Lemma tlook_step_app rec k a : forall b acc,
+  tlook_step rec k (a ++ b) acc = rbind (tlook_step rec k a acc) (tlook_step rec k b).
+Proof.
+  induction a as [|[k' v] r IH]; intros b acc; cbn [app tlook_step]; [reflexivity|].
+  destruct (is_merge k' && negb (is_merge k)).
+  - rewrite rbind_assoc. destruct (tmerge rec k v acc); cbn [rbind]; try reflexivity. apply IH.
+  - destruct (str_eqb k' k); apply IH.
+Qed.
+
+Lemma tlook_step_explicit rec k X :
+  (forall kv, In kv X -> is_merge (fst kv) = false) -> NoDup (keys X) -> forall acc,
+  tlook_step rec k X acc = ROk (match lookup_entry k X with Some v => Some v | None => acc end).
+Proof.
+  induction X as [|[k' v] r IH]; intros Hm Hn acc; cbn [tlook_step lookup_entry]; [reflexivity|].
+  pose proof (Hm (k', v) (or_introl eq_refl)) as Hk'. cbn [fst] in Hk'. rewrite Hk'. cbn [andb].
+  cbn [keys map fst] in Hn. inversion Hn as [|? ? Hnotin Hn']; subst.
+  rewrite (str_eqb_sym k' k). destruct (str_eqb k k') eqn:E.
+  - apply str_eqb_eq in E. subst k'. rewrite IH by (try assumption; intros kv Hkv; apply Hm; right; exact Hkv).
+    rewrite (lookup_entry_none _ _ Hnotin). reflexivity.
+  - apply IH; [intros kv Hkv; apply Hm; right; exact Hkv | assumption].
+Qed.
